@@ -609,7 +609,7 @@ func printable(s string) string {
 	return sb.String()
 }
 
-var clauseSuffixRe = regexp.MustCompile(`(#\d+|~\d+)+$`)
+var clauseSuffixRe = regexp.MustCompile(`(-ret\d+)?(#\d+|~\d+)*$`)
 
 func clauseKey(name string) string {
 	// the package-wide operands-kept contract is one clause per function: every mutating call is an instance
